@@ -33,7 +33,8 @@ PROP = "C18"
 # deviations of the mechanism model that Route.tla / Gen_Route.tla still excuse (the open findings).  F8a, F8b (7530ccc) and
 # F8e (f104ab0) are repaired in /repo: the model follows the repaired code and nothing excuses them.
 ALL_FINDINGS = ["F8c", "F8d", "F8f"]
-LAWS = ["TypeOK", "LawRoundTrip", "LawApplyMissing", "LawNoEmptyBinding", "LawAmbiguityComplete", "LawWitness",
+LAWS = ["TypeOK", "LawRoundTrip", "LawApplyMissing", "LawNoEmptyBinding", "LawRegenerate", "LawDuplicateNamesDoNotInvert",
+        "LawAmbiguityComplete", "LawWitness",
         "LawOverlapCharacterised", "LawResolveUnique", "LawBuildRejects"]
 GEN_LAWS = ["GenTypeOK", "SegmentsInBounds", "ErrorInBounds", "ParserAcceptsGrammar", "ParserReadsAsGrammar"]
 R = core.Raw
@@ -254,6 +255,29 @@ def ctx_of(kind, rec, ti, case, res):
     return {"component": "Route", "kind": kind, "rec": rec, "theme": ti, "case": case, "observed": res}
 
 
+def check_regenerate(T, ps, pat_scheme, us, o, ctx):
+    """L2': the pattern matched the URI `us` (path `o["path"]` as RouteUri reads it) and apply() of the bindings gave
+    o["re"]: segment by segment the regenerated route must carry the same decoded text as the URI, with the same
+    leading '/'.  (A text with a repeated parameter name, if the parser lets it through, fails exactly here: the map
+    keeps one of the two values.)"""
+    if not isinstance(o.get("s"), dict) or o.get("path") is None:
+        return
+    T.law("Regenerate")
+    re_ = o.get("re")
+    if not isinstance(re_, str):
+        T.reject("Regenerate", "pattern %r matches %r with %s but apply of these bindings fails: %s" % (
+            ps, us, json.dumps(o["s"], ensure_ascii=False), json.dumps(re_)), [], ctx)
+        return
+    body = re_[len(pat_scheme) + 1:] if pat_scheme is not None and re_.startswith(pat_scheme + ":") else re_
+    path = o["path"]
+
+    def texts(x):
+        return [pct_decode(z) for z in (x[1:] if x.startswith("/") else x).split("/")]
+    if body.startswith("/") != path.startswith("/") or texts(body) != texts(path):
+        T.reject("Regenerate", "pattern %r matches %r with bindings %s, but apply of these bindings gives %r: the pattern does not invert" % (
+            ps, us, json.dumps(o["s"], ensure_ascii=False), re_), [], ctx)
+
+
 # ----------------------------------------------------------------------------- PAT: one pattern, maps, URIs
 
 def cval(v, th):
@@ -293,7 +317,7 @@ def eval_pat(rec, ti, case, res, T):
         return
     obs = res["obs"]
     T.ops += len(obs)
-    o = obs[0]
+    o = o0 = obs[0]
     names = [th["name"][n] for n in rec["names"]]
     if not o.get("ok"):
         if shapes & {"F8c", "F8d", "F8f"}:
@@ -372,6 +396,7 @@ def eval_pat(rec, ti, case, res, T):
         if isinstance(got, dict) and any(v == "" for v in got.values()):
             T.reject("NoEmptyBinding", "pattern %r binds an empty segment of %r: %s" % (ps, us, json.dumps(got)), [], ctx)
             continue
+        check_regenerate(T, ps, o0.get("scheme"), us, o, ctx)
         exp_p = conc_bind(ur["bp"], th, by_real) if ur["m"] else None
         exp_m = conc_bind(ur["bm"], th, by_raw) if ur["m"] else None
         T.law("MatchAsSpecified")
@@ -481,6 +506,43 @@ def eval_tab(rec, ti, case, res, T):
         T.drift_note("build(%s) accepted=%s ambiguous=%s, mechanism model %s %s" % (ps, tab["accepted"], tab["amb"], rec["accM"], rec["tabAmbM"]))
 
 
+# ----------------------------------------------------------------------------- BAD: a text repeating a parameter name
+
+BAD_VALS = ["v", "hello world!", "é", "0", "x.y", "z"]
+
+
+def build_bad(rec, ti, cid):
+    th = THEMES[ti]
+    ps = render_pattern(rec["p"], th)
+    us = sorted(render_uri(u, th) for u in rec["uris"])
+    return {"id": cid, "acts": [{"k": "parse", "p": ps}, {"k": "apply", "p": ps, "vals": BAD_VALS[:len(rec["names"])]}] +
+            [{"k": "unapply", "p": ps, "u": u} for u in us]}
+
+
+def eval_bad(rec, ti, case, res, T):
+    """The specification says ParseError.  If the real parser takes the text, it is a pattern and the laws apply to it."""
+    ctx = ctx_of("BAD", rec, ti, case, res)
+    ps = case["acts"][0]["p"]
+    if res.get("panic") is not None or "obs" not in res:
+        T.reject("NoPanic", "panic in code under test on pattern text %r: %s" % (ps, res.get("panic")), [], ctx)
+        return
+    obs = res["obs"]
+    T.ops += len(obs)
+    o0 = obs[0]
+    if not o0.get("ok"):
+        return                      # rejected, as specified
+    T.drift_note("parser accepts %r, which repeats a parameter name (parameters() = %s)" % (ps, o0.get("params")))
+    a = obs[1]
+    T.law("RoundTrip")
+    if "r" in a and (a.get("rt") != a.get("m_used") or a.get("rt_uri") != a.get("m_used")):
+        T.reject("RoundTrip", "pattern %r: apply(%s) = %r but unapply_str of that = %s" % (
+            ps, json.dumps(a.get("m_used"), ensure_ascii=False), a["r"], json.dumps(a.get("rt"), ensure_ascii=False)), [], ctx)
+    for act, o in zip(case["acts"][2:], obs[2:]):
+        if isinstance(o.get("s"), dict) and any(v == "" for v in o["s"].values()):
+            T.reject("NoEmptyBinding", "pattern %r binds an empty segment of %r" % (ps, act["u"]), [], ctx)
+        check_regenerate(T, ps, o0.get("scheme"), act["u"], o, ctx)
+
+
 def rec_shapes(p):
     s = set()
     if not p["segs"]:
@@ -499,10 +561,32 @@ def rec_shapes(p):
 STR_VALS = ["v", "hello world!", "é/%41\ufffd"]
 
 
+def str_probe(rec, chars):
+    """a URI for the segments the parser MODEL read (also when it then rejected the string for a repeated name): the
+    literal texts, and a different value at every parameter position; None if the literals cannot occur in a URI"""
+    if not rec["segs"] or (rec["sc"] >= 0 and not scheme_legal("".join(chars[:rec["sc"]]))):
+        return None
+    segs = []
+    for n, g in enumerate(rec["segs"]):
+        t = "".join(chars[g["b"]:g["e"]])
+        if g["par"]:
+            segs.append("p%d" % n)
+        elif uri_legal_text(t):
+            segs.append(t)
+        else:
+            return None
+    return (("".join(chars[:rec["sc"]]) + ":") if rec["sc"] >= 0 else "") + ("/" if rec["abs"] else "") + "/".join(segs)
+
+
 def build_str(rec, ti, cid):
     ct = CHAR_THEMES[ti]
-    s = "".join(ct.get(c, c) for c in rec["s"])
-    return {"id": cid, "acts": [{"k": "parse", "p": s}, {"k": "apply", "p": s, "vals": STR_VALS}]}
+    chars = [ct.get(c, c) for c in rec["s"]]
+    s = "".join(chars)
+    acts = [{"k": "parse", "p": s}, {"k": "apply", "p": s, "vals": STR_VALS}]
+    u = str_probe(rec, chars)
+    if u is not None:
+        acts.append({"k": "unapply", "p": s, "u": u})
+    return {"id": cid, "acts": acts}
 
 
 def eval_str(rec, ti, case, res, T):
@@ -512,8 +596,13 @@ def eval_str(rec, ti, case, res, T):
     if res.get("panic") is not None or "obs" not in res:
         T.reject("NoPanic", "RoutePattern::parse_str(%r) / apply panics: %s" % (s, res.get("panic")), [], ctx)
         return
-    o, a = res["obs"]
-    T.ops += 2
+    o, a = res["obs"][:2]
+    T.ops += len(res["obs"])
+    if len(res["obs"]) > 2 and o.get("ok") and "bad" not in res["obs"][2]:
+        pr = res["obs"][2]
+        if isinstance(pr.get("s"), dict) and any(v == "" for v in pr["s"].values()):
+            T.reject("NoEmptyBinding", "pattern %r binds an empty segment of %r" % (s, case["acts"][2]["u"]), [], ctx)
+        check_regenerate(T, s, o.get("scheme"), case["acts"][2]["u"], pr, ctx)
     chars = [ct.get(c, c) for c in rec["s"]]
 
     def boff(n):
@@ -558,7 +647,7 @@ def eval_str(rec, ti, case, res, T):
         T.drift_note("parse_str(%r) = %s, parser model %s" % (s, json.dumps(got), json.dumps(exp)))
 
 
-KINDS = {"PAT": (build_pat, eval_pat), "TAB": (build_tab, eval_tab), "STR": (build_str, eval_str)}
+KINDS = {"PAT": (build_pat, eval_pat), "TAB": (build_tab, eval_tab), "STR": (build_str, eval_str), "BAD": (build_bad, eval_bad)}
 
 # ----------------------------------------------------------------------------- the harness binary
 
@@ -616,7 +705,7 @@ def run_cases(cases, wd, tag):
 def route_cfg(lits, pars, schemes, absf, maxsegs, maxroutes, findings=ALL_FINDINGS, deep=False, dump=True):
     k = dict(LitSyms=tset(lits), ParSyms=tset(pars), Schemes=tset(schemes), AbsFlags=tset(absf), MaxSegs=maxsegs,
              MaxRoutes=maxroutes, Findings=tset(findings), DeepOverlap=deep)
-    invs = list(LAWS) + (["PatDump", "TabDump"] if dump else [])
+    invs = list(LAWS) + (["PatDump", "TabDump", "BadDump"] if dump else [])
     return core.cfg(constants=k, invariants=invs, properties=["FindIsTheMatch"], view="View")
 
 
@@ -774,7 +863,7 @@ def run(tier, out):
                 cov[a] = (o[0] + d, o[1] + t)
             info = {"run": name, "module": module, "states": r.distinct, "transitions": r.generated, "depth": r.depth,
                     "tlc_wall_s": round(r.wall, 1)}
-            for kind in ("PAT", "TAB", "STR"):
+            for kind in ("PAT", "TAB", "STR", "BAD"):
                 recs = r.tagged.get(kind, [])
                 if recs and nthemes:
                     n = run_records(kind, recs, nthemes, wd, "%s_%s" % (name, kind), T, salt)
